@@ -59,6 +59,9 @@ func newVDB(t testing.TB, opts DatabaseContextOptions) *vdb {
 	if opts.CacheOptions == nil {
 		opts.CacheOptions = base.Ptr(DefaultCacheOptions())
 	}
+	if opts.BcryptCost == 0 {
+		opts.BcryptCost = 4 // bcrypt.MinCost: password hashing speed is irrelevant to the properties explored here
+	}
 	db, ctx := SetupTestDBForBucketWithOptions(t, tb, opts)
 	db.sequences.releaseSequenceWait = time.Hour // the idle-release timer never fires by itself
 	coll, ctx := GetSingleDatabaseCollectionWithUser(ctx, t, db)
@@ -69,6 +72,29 @@ func newVDB(t testing.TB, opts DatabaseContextOptions) *vdb {
 		tb.Close(ctx)
 	}
 	return v
+}
+
+// waitFeed waits until the change cache has caught up with the allocator, or has stopped making progress (a
+// leaked sequence keeps it waiting; that is reported by the accounting oracle, not by a timeout here).
+func (v *vdb) waitFeed() {
+	last, err := v.db.sequences.lastSequence(v.ctx)
+	if err != nil {
+		return
+	}
+	deadline := time.Now().Add(10 * time.Second)
+	prev, stable := uint64(0), time.Now()
+	for time.Now().Before(deadline) {
+		next := v.db.changeCache.getNextSequence()
+		if next >= last+1 {
+			return
+		}
+		if next != prev {
+			prev, stable = next, time.Now()
+		} else if time.Since(stable) > 400*time.Millisecond {
+			return
+		}
+		time.Sleep(2 * time.Millisecond)
+	}
 }
 
 // accountSequences checks {1..counter} = sequences carried by stored documents/principals (+) published unused.
@@ -201,7 +227,7 @@ func c05Build(t testing.TB, r *vreport.Report, sc c05Scenario) vsched.Scenario {
 			viol := map[string]string{}
 			name := sc.name()
 			H.Schedule = false
-			v.db.WaitForPendingChanges(t)
+			v.waitFeed()
 			doc, err := coll.GetDocument(ctx, "doc1", DocUnmarshalAll)
 			if err != nil {
 				viol["C05/harness/final-read-failed"] = err.Error()
